@@ -638,4 +638,175 @@ Proof.
     right. destruct (WC y Hy2) as [[]|Hy3]. apply Hlb1 in Hy3. apply ancs_kid. exact Hy3.
 Qed.
 
+(* ------------------------------------------------------------------ every exit of the merge (also InvalidFileMerge) *)
+Ltac anystep H a wa E :=
+  apply wbind_inv in H as [(a & wa & E & H) | (?e & E & ?Hr)]; [cbv beta zeta in H|].
+
+Lemma import_any pa pb nf minv : forall l idx D Imp w r0 w',
+  MI D Imp w -> In pb D -> Reach w r pa ->
+  (forall x, In x (map fst l) -> lists w1 pb x /\ ~ In x Imp /\ ~ In x D) -> NoDup (map fst l) ->
+  import_new_items T pa l idx nf minv w = Val (r0, w') ->
+  exists Imp', MI D Imp' w'.
+Proof.
+  induction l as [|[x ipos] l IH]; intros idx D Imp w r0 w' M Hpb Hpa Hall Hnd H; cbn [import_new_items] in H.
+  - apply wret_inv in H as (_ & ->). exists Imp. auto.
+  - cbn [map fst] in Hall, Hnd. apply NoDup_cons_iff in Hnd as (Hxl & Hnd).
+    destruct (Hall x (or_introl eq_refl)) as (Hlx & HxI & HxD).
+    anystep H u1 wa E1; [|apply modify_node_wset in E1 as (? & _ & [=] & _)].
+    apply modify_node_wset in E1 as (nx & Hnx & _ & ->).
+    destruct (MI_reparent D Imp w x nx pa pb M Hpb Hlx HxI HxD Hpa Hnx) as (Ma & Hnl).
+    set (wa := wset w x (set_parent nx (PElem pa))) in *.
+    assert (Hnxa : w_nodes wa x = Some (set_parent nx (PElem pa))) by apply nodes_wset_eq.
+    anystep H u2 wb E2; [|apply modify_node_wset in E2 as (? & _ & [=] & _)].
+    apply modify_node_wset in E2 as (nx2 & Hnx2 & _ & ->).
+    rewrite Hnxa in Hnx2. injection Hnx2 as <-.
+    set (nx3 := set_files _ _) in *.
+    assert (Sab : same_tree wa (wset wa x nx3)) by (eapply st_wset; eauto; reflexivity).
+    pose proof (MI_same_tree _ _ _ _ Sab Ma) as Mb.
+    set (wb := wset wa x nx3) in *.
+    anystep H ne w3 E3; [|apply get_node_inv in E3 as (? & _ & [=] & _)].
+    apply get_node_inv in E3 as (ne' & Hne & [= ->] & ->).
+    anystep H pan w4 E4; [|apply get_node_inv in E4 as (? & _ & [=] & _)].
+    apply get_node_inv in E4 as (npa & Hnpa & [= ->] & ->).
+    anystep H range w5 E5; [|apply wcatch_inv in E5 as (? & _ & [=])].
+    pose proof (ro_catch _ (ro_calc_range T _ _ _) _ _ _ E5) as ->.
+    destruct range as [[fp lp]|e]; [|apply wfail_inv in H as (_ & ->); exists (x :: Imp); exact Mb].
+    anystep H u3 wc E6; [|apply content_insert_inv in E6 as (? & _ & [=] & _)].
+    apply content_insert_inv in E6 as (npa' & Hnpa' & _ & ->).
+    rewrite Hnpa in Hnpa'. injection Hnpa' as <-.
+    assert (Hpa_a : Reach wa r pa) by (apply (reach_wset_kids w x nx _ pa Hnx); [reflexivity|exact Hpa]).
+    assert (Hpa_b : Reach wb r pa) by (apply (st_reach _ _ _ _ Sab); exact Hpa_a).
+    assert (Hpx_b : par wb x pa) by (exists nx3; split; [apply nodes_wset_eq|reflexivity]).
+    assert (Hnl_b : ~ lists wb pa x).
+    { intros Hl. apply (st_lists _ _ _ _ Sab) in Hl. apply (lists_wset_kids w x nx _ pa x Hnx) in Hl; [auto|reflexivity]. }
+    destruct (MI_insert D (x :: Imp) wb x pa npa (N.to_nat (N.min (N.max (ipos + idx) fp) lp)) Mb HxD Hpa_b Hpx_b Hnl_b Hnpa) as (Mc & Hmono).
+    set (wc := wset wb pa _) in *.
+    assert (Hpa_c : Reach wc r pa).
+    { eapply reach_mono; [| exact Hmono | exact Hpa_b]. intros i. apply (alloc_wset wb pa npa _ i Hnpa). }
+    eapply (IH (idx + 1) D (x :: Imp) wc r0 w' Mc Hpb Hpa_c); auto.
+    intros x' Hx'. destruct (Hall x' (or_intror Hx')) as (A & B & Cc). split; auto. split; auto.
+    intros [<-|Hin]; auto.
+Qed.
+
+Definition MergeAny (fuel : nat) : Prop := forall pa files pb nf D Imp w r0 w',
+  MI D Imp w -> Reach w r pa -> ~ In pb D -> ~ In pb Imp -> base <= pb ->
+  (pb = rb \/ exists q, In q D /\ lists w1 q pb) ->
+  merge_shared T LATEST name_definition_ref fuel pa files pb nf w = false ->
+  merge_element T LATEST name_definition_ref fuel pa files pb nf w = Val (r0, w') ->
+  exists D' Imp', MI D' Imp' w'.
+
+Lemma subs_any fl files nf pb : MergeAny fl ->
+  forall l Dc Ic wc r0 w', MI Dc Ic wc -> In pb Dc ->
+    (forall ea eb, In (ea, eb) l -> Reach wc r ea /\ lists w1 pb eb /\ ~ In eb Dc /\ ~ In eb Ic) ->
+    NoDup (map snd l) ->
+    shared_subs fl files nf l wc = false -> subs_loop fl files nf l wc = Val (r0, w') ->
+    exists D' Imp', MI D' Imp' w'.
+Proof.
+  intros IHa. pose proof (merge_ok fl) as IHf.
+  induction l as [|[ea eb] rest IHl]; intros Dc Ic wc r0 w' M HpbD Hall Hnd Hs H.
+  - cbn [subs_loop] in H. apply wret_inv in H as (_ & ->). eauto.
+  - cbn [subs_loop] in H. cbn [shared_subs] in Hs. cbn [map snd] in Hnd. apply NoDup_cons_iff in Hnd as (Hebr & Hnd).
+    destruct (Hall ea eb (or_introl eq_refl)) as (Hrea & Hleb & HebD & HebI).
+    anystep H ean0 wx E1; [|apply get_node_inv in E1 as (? & _ & [=] & _)].
+    apply get_node_inv in E1 as (ean & Hean & [= ->] & ->).
+    rewrite Hean in Hs. cbv zeta in Hs. apply orb_false_iff in Hs as (Hs1 & Hs2).
+    assert (Hbpb : base <= pb) by (apply (mi_dup _ _ _ M) in HpbD; tauto).
+    assert (Hbeb : base <= eb).
+    { destruct (N.lt_ge_cases eb base) as [Hlt|]; auto. pose proof (Hold_up _ _ Hlt (c_up _ C1 _ _ Hleb)). lia. }
+    anystep H u1 wm Em.
+    2:{ eapply (IHa ea _ eb nf Dc Ic wc _ w' M Hrea HebD HebI Hbeb (or_intror (ex_intro _ pb (conj HpbD Hleb))) Hs1 Em). }
+    destruct u1.
+    anystep H u2 wn En; [|apply modify_node_wset in En as (? & _ & [=] & _)]. destruct u2.
+    erewrite wbind_val in Hs2 by exact Em. rewrite En in Hs2.
+    destruct (IHf ea _ eb nf Dc Ic wc wm M Hrea HebD HebI Hbeb (or_intror (ex_intro _ pb (conj HpbD Hleb))) Hs1 Em)
+      as (D2 & I2 & (M2 & Hmono2 & HD2 & HI2) & HcD2 & HcI2).
+    assert (Smn : same_tree wm wn).
+    { eapply stp_modify_node; [|exact En]. intros n. cbv beta. destruct (negb (is_empty (n_files n))); split; reflexivity. }
+    pose proof (MI_same_tree _ _ _ _ Smn M2) as Mn.
+    assert (Hmono_n : forall p c, lists wc p c -> lists wn p c).
+    { intros p c Hl. apply (st_lists _ _ _ _ Smn). auto. }
+    eapply (IHl D2 I2 wn r0 w' Mn (HD2 _ HpbD)); auto.
+    intros ea' eb' Hin. destruct (Hall ea' eb' (or_intror Hin)) as (A & B & Cc & Dd).
+    assert (Hne : eb <> eb'). { intros ->. apply Hebr. apply in_map_iff. exists (ea', eb'). auto. }
+    split; [|split; [exact B|split]].
+    + eapply reach_mono_root; [eapply MI_root_alloc; eauto | exact Hmono_n | exact A].
+    + intros Hin2. destruct (HcD2 _ Hin2) as [Hd|Hd]; auto.
+      apply Hne. eapply (siblings_not_nested w1 pb); eauto.
+    + intros Hin2. destruct (HcI2 _ Hin2) as [Hd|(Hd & _)]; auto.
+      apply Hne. eapply (siblings_not_nested w1 pb); eauto.
+Qed.
+
+Theorem merge_any : forall fuel, MergeAny fuel.
+Proof.
+  induction fuel as [|fl IHf]; intros pa files pb nf D Imp w r0 w' M Hpa HpD HpI Hb Hup Hs H; [discriminate H|].
+  rewrite merge_element_S in H. rewrite merge_shared_S in Hs.
+  anystep H w0 wx E0; [|apply wget_inv in E0 as ([=] & _)]. apply wget_inv in E0 as ([= ->] & ->).
+  anystep H na0 wx E1; [|apply get_node_inv in E1 as (? & _ & [=] & _)]. apply get_node_inv in E1 as (na & Hna & [= ->] & ->).
+  anystep H nb0 wx E2; [|apply get_node_inv in E2 as (? & _ & [=] & _)]. apply get_node_inv in E2 as (nb & Hnb & [= ->] & ->).
+  anystep H la0 wx E3; [|apply wl_inv in E3 as (? & _ & [=] & _)]. apply wl_inv in E3 as (la & Ela & [= ->] & ->).
+  anystep H lb0 wx E4; [|apply wl_inv in E4 as (? & _ & [=] & _)]. apply wl_inv in E4 as (lb & Elb & [= ->] & ->).
+  anystep H sp0 wx E5; [|apply wl_inv in E5 as (? & _ & [=] & _)]. apply wl_inv in E5 as (sp & Esp & [= ->] & ->).
+  anystep H wk wx E6.
+  2:{ destruct (walk _ _ _ _ _ _ _ _ _) as [[wk0|e0]| |] in E6; try discriminate E6. injection E6 as _ <-. eauto. }
+  destruct (walk _ _ _ _ _ _ _ _ _) as [[wk0|e0]| |] eqn:EW in E6; try discriminate E6. injection E6 as -> <-.
+  unfold merge_decisions in Hs. cbv zeta in Hs. rewrite Hna, Hnb, Ela, Elb, Esp, EW in Hs.
+  apply orb_false_iff in Hs as (Hws & Hs).
+  pose proof (MI_enter D Imp w pb M HpD HpI Hb Hup) as M0.
+  assert (HpbD0 : In pb (pb :: D)) by (left; auto).
+  assert (Hnr : ~ Reach w r pb) by (intros Hre; apply (MI_reach_good _ _ _ _ M0 Hre); auto).
+  assert (Hkb : kids nb = kids_of w1 pb).
+  { rewrite <- (mi_kids _ _ _ M0) by auto. unfold kids_of. rewrite Hnb. reflexivity. }
+  pose proof (keys_of_ids _ _ _ _ _ _ Ela) as Ila. pose proof (keys_of_ids _ _ _ _ _ _ Elb) as Ilb.
+  assert (NDb : NoDup (map k_id lb)).
+  { rewrite Ilb. fold (kids nb). rewrite Hkb. unfold kids_of. destruct (w_nodes w1 pb) as [n1|] eqn:E1; [|constructor].
+    eapply c_nodup; eauto. }
+  destruct (walk_ids _ _ _ _ _ _ _ _ _ _ EW NDb) as (WA & WB & WC & WD); [constructor|intros x []|].
+  cbn [wk_merge wk_b_only bo map] in WA, WB, WC.
+  assert (Hlb1 : forall x, In x (map k_id lb) -> lists w1 pb x).
+  { intros x Hx. rewrite Ilb in Hx. fold (kids nb) in Hx. rewrite Hkb in Hx. apply lists_kids_of. exact Hx. }
+  assert (Hla1 : forall x, In x (map k_id la) -> lists w pa x).
+  { intros x Hx. rewrite Ila in Hx. exists na. auto. }
+  anystep H u1 wr Er.
+  2:{ exfalso. clear - Er. revert Er. generalize (wk_a_only wk) as l. intros l. revert w.
+      induction l as [|a l IH]; intros w Er; cbn [restrict_a_only] in Er; [discriminate Er|].
+      apply wbind_inv in Er as [(u & w2 & E1 & E2) | (e' & E1 & _)]; [eapply IH; eauto|].
+      apply modify_node_wset in E1 as (? & _ & [=] & _). }
+  destruct u1.
+  pose proof (stp_restrict_a_only _ _ _ _ _ Er) as Sr.
+  pose proof (MI_same_tree _ _ _ _ Sr M0) as Mr.
+  assert (Hpa_r : Reach wr r pa) by (apply (st_reach _ _ _ _ Sr); auto).
+  assert (Himp_pre : forall x, In x (map fst (wk_b_only wk)) -> lists w1 pb x /\ ~ In x Imp /\ ~ In x (pb :: D)).
+  { intros x Hx. destruct (WC x Hx) as [[]|Hx']. apply Hlb1 in Hx'.
+    destruct (kid_fresh _ _ _ _ _ M HpD Hb Hx') as (A & B & Cc & _). split; auto. split; auto. intros [<-|Hin]; auto. }
+  anystep H u2 wi Ei.
+  2:{ destruct (import_any pa pb nf _ _ _ _ _ _ _ _ Mr HpbD0 Hpa_r Himp_pre WD Ei) as (Imp2 & Mi). eauto. }
+  destruct u2.
+  assert (Eri : (restrict_a_only (wk_a_only wk) files;;
+                 import_new_items T pa (wk_b_only wk) 0 nf (min_ver_of LATEST nf w))%W w = Val (OK tt, wi)).
+  { erewrite wbind_val by exact Er. exact Ei. }
+  rewrite Eri in Hs. clear Eri.
+  destruct (import_ok pa pb nf (min_ver_of LATEST nf w) (wk_b_only wk) 0 (pb :: D) Imp wr wi Mr HpbD0 Hpa_r)
+    as (Imp2 & Mi & HI2 & Hmono_i); [exact Himp_pre| exact WD | exact Ei |].
+  assert (Hw : walk_shared wk = false) by exact Hws.
+  unfold walk_shared in Hw. apply orb_false_iff in Hw as (Hnd & Hdis).
+  apply negb_false_iff in Hnd. apply nodupb_nodup in Hnd.
+  assert (Hpairs : forall ea eb, In (ea, eb) (wk_merge wk) ->
+            Reach wi r ea /\ lists w1 pb eb /\ ~ In eb (pb :: D) /\ ~ In eb Imp2).
+  { intros ea eb Hin.
+    assert (Hea : In ea (map k_id la)).
+    { destruct (WA ea) as [[]|]; auto. apply in_map_iff. exists (ea, eb). auto. }
+    assert (Heb : In eb (map k_id lb)).
+    { destruct (WB eb) as [[]|[|]]; auto. apply in_map_iff. exists (ea, eb). auto. }
+    apply Hlb1 in Heb. destruct (kid_fresh _ _ _ _ _ M HpD Hb Heb) as (A & B & Cc & _).
+    split; [|split; [exact Heb|split]].
+    - eapply reach_mono_root; [eapply MI_root_alloc; eauto | exact Hmono_i |].
+      apply (st_reach _ _ _ _ Sr). econstructor; [exact Hpa|]. apply Hla1. exact Hea.
+    - intros [<-|Hin']; auto.
+    - intros Hin'. apply HI2 in Hin' as [Hin'|Hin']; auto.
+      apply in_map_iff in Hin' as ((b0 & n0) & E & Hb0). cbn in E. subst b0.
+      assert (existsb (fun b => inb (fst b) (map snd (wk_merge wk))) (wk_b_only wk) = true); [|congruence].
+      apply existsb_exists. exists (eb, n0). split; auto. apply inb_in. apply in_map_iff. exists (ea, eb). auto. }
+  eapply (subs_any fl files nf pb IHf (wk_merge wk) (pb :: D) Imp2 wi r0 w' Mi HpbD0 Hpairs Hnd Hs H).
+Qed.
+
 End Merge.
